@@ -315,6 +315,53 @@ def _is_lit(v):
     return v.known and isinstance(v.const, (int, float)) and not isinstance(v.const, bool)
 
 
+# ---- POLY facet: small polynomials over named symbols (tags["poly"]: {monomial tuple: coefficient}); used to evaluate
+# affine maps at literal corner values (0/1) without running anything.
+POLY_CAP = 24
+
+
+def poly_of(v):
+    p = v.tag("poly")
+    if p is not None:
+        return p
+    if _is_lit(v):
+        return {(): v.const} if v.const != 0 else {}
+    return None
+
+
+def poly_binop(op, l, r):
+    a, b = poly_of(l), poly_of(r)
+    if a is None or b is None:
+        return None
+    out = {}
+    if isinstance(op, (ast.Add, ast.Sub)):
+        sg = 1 if isinstance(op, ast.Add) else -1
+        out = dict(a)
+        for m, c in b.items():
+            out[m] = out.get(m, 0) + sg * c
+    elif isinstance(op, ast.Mult):
+        for m1, c1 in a.items():
+            for m2, c2 in b.items():
+                m = tuple(sorted(m1 + m2))
+                out[m] = out.get(m, 0) + c1 * c2
+    else:
+        return None
+    out = {m: c for m, c in out.items() if c != 0}
+    return out if len(out) <= POLY_CAP else None
+
+
+def poly_subst(p, sym, value):
+    """substitute a numeric value for a symbol"""
+    out = {}
+    for m, c in p.items():
+        k = m.count(sym)
+        rest = tuple(x for x in m if x != sym)
+        cc = c * (value ** k)
+        if cc != 0:
+            out[rest] = out.get(rest, 0) + cc
+    return {m: c for m, c in out.items() if c != 0}
+
+
 def _nonunit_lit(v):
     return _is_lit(v) and v.const != 1
 
@@ -420,7 +467,9 @@ def binop(I, node, op, l, r):
     elif isinstance(op, ast.Div):
         out.unit = umul(l.unit, r.unit, -1)
         if r.frame is None or _is_lit(r):
-            out.frame = l.frame if not (r.unit not in (None, ONE, POLY)) or l.frame in ("GAIN",) else l.frame
+            out.frame = l.frame
+        elif r.shape is not None and r.shape.rank == 0 and not (l.shape is not None and l.shape.rank == 0):
+            out.frame = l.frame          # an array divided by a scalar keeps its frame
         else:
             out.frame = None
         if l.known and l.const == 1 and r.frame == "TOTAL":
@@ -434,9 +483,12 @@ def binop(I, node, op, l, r):
         if n == 2:
             out.tags["squared"] = l
     out.sign = sign_binop(op, l, r)
+    pp = poly_binop(op, l, r)
+    if pp is not None:
+        out.tags["poly"] = pp
     if isinstance(op, ast.Div) and r.tag("norm_ord") == 1 and r.tag("norm_of") == l.term and l.term not in (None, ("?",)) \
             and l.sign in ("NONNEG", "POS") \
-            and r.tag("reduced_axis") in (-1, 1):
+            and r.tag("reduced_axis") in (-1, 1) and r.tag("keepdims"):
         out.tags["simplex_rows"] = True      # non-negative rows divided by their own L1 norm
         out.sign = "NONNEG"
     d, lit = deg_binop(op, l, r)
@@ -468,6 +520,13 @@ def frame_mul(I, node, l, r, matmul):
     a, b = l.frame, r.frame
     if a is None and b is None:
         return None
+    if not matmul and a is not None and b is not None:
+        # an array scaled by a scalar keeps its frame (B * amax / bmax)
+        ls, rs = l.shape, r.shape
+        if rs is not None and rs.rank == 0 and not (ls is not None and ls.rank == 0):
+            return a
+        if ls is not None and ls.rank == 0 and not (rs is not None and rs.rank == 0):
+            return b
     if a is not None and b is not None:
         if {a, b} == {"GAIN"}:
             I.type_error(node, "QTY", "product of two gain matrices (adaptation applied twice?)", frames=(a, b))
@@ -644,7 +703,7 @@ def subscript(I, e, b):
         if idx.tag("hull_attr") == "simplices":
             out.tags["simplices_of"] = b
     for k in ("deg", "litfactor", "kind", "bary", "simplex_rows", "offset_id", "hull_pts", "rowsof", "maybe_zero_rows", "unit_cube",
-              "simplices_of"):
+              "simplices_of", "poly"):
         if b.tag(k) is not None:
             out.tags[k] = b.tag(k)
     if idx.tag("zero_row_mask_of") is not None and idx.tag("zero_row_mask_inverted"):
